@@ -70,6 +70,20 @@ class FTranslator(K.Translator):
         return r
 
     def stmt(self, s, env, out, tag, retvar, top):
+        if s['kind'] == 'DeclStmt':
+            # function-local `static const secp256k1_fe c = SECP256K1_FE_CONST(...)`: a constant like the file-scope ones
+            rest = []
+            for d in s.get('inner', []):
+                qt = d.get('type', {}).get('qualType', '')
+                if d.get('kind') == 'VarDecl' and d.get('storageClass') == 'static' and 'const' in qt and qt.replace('const ', '').strip() == 'secp256k1_fe' \
+                        and any(c.get('kind') == 'InitListExpr' for c in d.get('inner', [])):
+                    uniq = '%s%s' % ((tag + '.') if tag else '', d['name'])
+                    self.front.cache['var:' + uniq] = d
+                    env[d['id']] = self.global_const(uniq)
+                else: rest.append(d)
+            if len(rest) != len(s.get('inner', [])):
+                if rest: K.Translator.stmt(self, dict(s, inner=rest), env, out, tag, retvar, top)
+                return
         if s['kind'] == 'IfStmt':
             inner = s['inner']
             pre = []
@@ -106,6 +120,8 @@ class FTranslator(K.Translator):
             if isnull(a) or isnull(b):
                 same = isnull(a) and isnull(b)
                 return lit(int(same if m['opcode'] == '==' else not same)), (32, True)
+        if m['kind'] == 'ImplicitCastExpr' and m.get('castKind') == 'LValueToRValue' and self.is_pointer_typed(m):
+            return lit(0 if self.pointer(m, env) == ('null',) else 1), (32, True)      # `if (ptr)` in C: the pointer itself is the condition
         if m['kind'] == 'ImplicitCastExpr' and m.get('castKind') == 'PointerToBoolean':
             return lit(0 if self.pointer(m['inner'][0], env) == ('null',) else 1), (32, True)
         return K.Translator.expr(self, n, env, out) if out is not None else K.Translator.expr(self, n, env)
@@ -257,7 +273,9 @@ def patch_returns(tr):
 K.Translator.call_inline_scoped = patch_returns(None)
 
 
-SETS = {'group': None, 'ellswift': [
+SETS = {'group': None, 'generator': [
+    ('svdw', 'shallue_van_de_woestijne', ()),
+], 'ellswift': [
     ('ge_x_on_curve_var', 'secp256k1_ge_x_on_curve_var', ()),
     ('ge_x_frac_on_curve_var', 'secp256k1_ge_x_frac_on_curve_var', ()),
     ('xswiftec_frac_var', 'secp256k1_ellswift_xswiftec_frac_var', ()),
@@ -299,6 +317,6 @@ def regenerate(_arg, repo, lean_dir):
 
 if __name__ == '__main__':
     root = os.path.dirname(os.path.dirname(os.path.abspath(__file__)))
-    for a in (sys.argv[1:] or ['group', 'ellswift']):
+    for a in (sys.argv[1:] or ['group', 'ellswift', 'generator']):
         r = regenerate(a, os.environ.get('VERIF_REPO', '/repo'), os.environ.get('C2LEAN_OUT', os.path.join(root, 'lean')))
         print(json.dumps({'errors': r['errors'], 'ok': [t['name'] for t in r['targets']]}))
